@@ -185,6 +185,57 @@ class ObjectNaming(Bounded):
         return True
 
 
+class ObjectCollisions(Bounded):
+    """The object files the real compile / link builtins derive for the sources of one target (through the real
+    configure_build on a temporary tree): distinct sources get distinct objects, every object lies in the build
+    directory, and no two targets share an object."""
+    target = 'bfg9000/builtins/compile.py::CompileSource.__init__'
+    properties = ('C05',)
+    reason = 'whole builtin layer (default names, intermediate directories, compiler output_file): runtime contract only'
+    native_chunk = 1
+    SETS = [
+        ['foo.c', 'foo.test.c', 'foo.test.x.c'], ['x.y.c', 'x.y.z.c', 'x.c'], ['a/foo.c', 'b/foo.c', 'foo.c'],
+        ['dir.d/foo.c', 'dir/foo.c', 'dir.d/foo.bar.c'], ['a b.c', 'a.b.c', 'a/b.c'], ['../src2/foo.c', 'foo.c', 'sub/../bar.c'],
+        ['./~/a.c', 'a.c'],       # a directory literally named `~`
+    ]
+
+    def native_inputs(self, case, alphabet, maxlen, rng, extra=0):
+        for i in range(len(self.SETS)):
+            for where in ('', 'sub'):
+                yield {'sources': i, 'script_dir': where}
+
+    def native_check(self, case, raw):
+        from contracts.scripts import run_configure
+        srcs = self.SETS[raw['sources']]
+        d = raw['script_dir']
+        body = ("t = executable('prog', files=%r)\nu = executable('other/prog2', files=%r)\n"
+                "for x in (t, u):\n    env.trace.append(('objs', [(str(o.path.root), o.path.suffix) for o in x.creator.files]))\n"
+                % (srcs, srcs[:2]))
+        files = {}
+        if d:
+            files['build.bfg'] = 'submodule(%r)\n' % d
+            files[d + '/build.bfg'] = body
+        else:
+            files['build.bfg'] = body
+        import posixpath
+        for s_ in srcs:
+            files[posixpath.normpath(posixpath.join(d, s_))] = 'int f(void) { return 0; }\n'
+        files = {k: v for k, v in files.items() if not k.startswith('..')}
+        if any(posixpath.normpath(posixpath.join(d, s_)).startswith('..') for s_ in srcs):
+            return None            # a source outside the source tree: not this claim
+        trace = run_configure(files, [])
+        if any(t[0] == 'FAILED' for t in trace):
+            return self.fail(case, raw, 'configure_succeeds', error=[t[1] for t in trace if t[0] == 'FAILED'][0][-500:])
+        objs = [o for t in trace if t[0] == 'objs' for o in t[1]]
+        if len(objs) != len(srcs) + 2:
+            return self.fail(case, raw, 'one_object_per_source', objects=objs)
+        if any(r != 'Root.builddir' or s_.startswith('..') for r, s_ in objs):
+            return self.fail(case, raw, 'objects_stay_in_the_build_directory', objects=sorted(objs))
+        if len(set(objs)) != len(objs):
+            return self.fail(case, raw, 'distinct_sources_get_distinct_objects', objects=sorted(objs))
+        return True
+
+
 def registry():
     from contracts import graph
-    return [WithinDirectory(), ObjectNaming()] + [c for c in graph.registry() if 'C05' in c.properties]
+    return [WithinDirectory(), ObjectNaming(), ObjectCollisions()] + [c for c in graph.registry() if 'C05' in c.properties]
